@@ -425,6 +425,22 @@ type simFactory struct {
 func (f simFactory) AssembleBlock(r basics.Round, _ []basics.Address) (agreement.UnfinishedBlock, error) {
 	f.in.enter(seamAssemble)
 	lv := ledgerView{f.in.node.led, f.in}
+	if !f.in.shadow {
+		// Block assembly runs in the pseudonode's goroutine, concurrently with whatever the same event handed to
+		// the crypto verifier (entering a round with a pipelined payload does both). Which of the two results
+		// reaches the main loop first is a real race and changes what is relayed in which form (seen as a twin
+		// "divergence" in C07 thorough runs). The assembly therefore waits for a gate that the scheduler opens
+		// at a quiescent instant, like a persist.
+		c := make(chan struct{})
+		lv.simLedger.mu.Lock()
+		lv.simLedger.gates = append(lv.simLedger.gates, c)
+		lv.simLedger.mu.Unlock()
+		select {
+		case <-c:
+		case <-f.in.release:
+			return nil, agreement.ErrAssembleBlockRoundStale
+		}
+	}
 	if r != lv.simLedger.next() {
 		return nil, agreement.ErrAssembleBlockRoundStale
 	}
